@@ -179,6 +179,36 @@ fn arrangements(n: usize) -> Vec<Vec<usize>> {
     out
 }
 
+/// every sequence over 0..n of length 2..=maxlen in which some node occurs more than once
+fn listings_with_repeats(n: usize, maxlen: usize) -> Vec<Vec<usize>> {
+    let mut out = vec![];
+    for len in 2..=maxlen {
+        let total = n.pow(len as u32);
+        for code in 0..total {
+            let mut c = code;
+            let seq: Vec<usize> = (0..len)
+                .map(|_| {
+                    let d = c % n;
+                    c /= n;
+                    d
+                })
+                .collect();
+            let mut seen = 0u32;
+            let mut rep = false;
+            for &x in &seq {
+                if seen & (1 << x) != 0 {
+                    rep = true;
+                }
+                seen |= 1 << x;
+            }
+            if rep {
+                out.push(seq);
+            }
+        }
+    }
+    out
+}
+
 // ---------------------------------------------------------------------------------------------
 // Generic helper under test
 // ---------------------------------------------------------------------------------------------
@@ -462,6 +492,12 @@ impl C17 {
                 ptrs[i].write().unwrap().abs = Some(raw::Abstract::new(names[i].clone(), outline));
             }
         }
+        if variant == 3 {
+            // all cells go by one and the same cell name (the layouts keep c0, c1, ...): distinct cells all the same
+            for p in &ptrs {
+                p.write().unwrap().name = "cell".into();
+            }
+        }
         let mut lib = raw::Library::new("lib", raw::Units::Nano);
         for &i in listing {
             lib.cells.push(ptrs[i].clone());
@@ -479,6 +515,10 @@ impl C17 {
         }
         self.run_raw_variant(g, listing, key, 2, cx);
         cx.tag("raw-both-views");
+        if g.n >= 2 {
+            self.run_raw_variant(g, listing, key, 3, cx);
+            cx.tag("raw-cells-sharing-a-name");
+        }
     }
     fn run_raw_variant(&self, g: &Graph, listing: &[usize], key: &str, variant: u8, cx: &mut Cx) {
         cx.stats.executions += 2;
@@ -486,10 +526,19 @@ impl C17 {
         let (lib, names) = Self::build_raw(g, listing, variant);
         let res = guard(|| {
             raw::DepOrder::order(&lib)
-                .map(|v| v.iter().map(|p| Self::idx_of(&names, &p.read().unwrap().name)).collect::<Vec<usize>>())
+                .map(|v| v.iter().map(|p| Self::idx_of(&names, &p.read().unwrap().layout.as_ref().map(|l| l.name.clone()).unwrap_or_else(|| p.read().unwrap().name.clone()))).collect::<Vec<usize>>())
                 .map_err(|e| format!("{e:?}"))
         });
-        self.judge(key, ["raw-DepOrder", "raw-DepOrder+abstract-only-sinks", "raw-DepOrder+both-views"][variant as usize], g, listing, res, cx);
+        self.judge(key, ["raw-DepOrder", "raw-DepOrder+abstract-only-sinks", "raw-DepOrder+both-views", "raw-DepOrder+cells-sharing-a-name"][variant as usize], g, listing, res, cx);
+        if variant == 3 {
+            // (the protobuf schema refers to cells by name: not exported)
+            for p in lib.cells.iter() {
+                if let Ok(mut c) = p.write() {
+                    c.layout = None;
+                }
+            }
+            return;
+        }
         let res = guard(|| lib.to_proto().map(|p| p.cells.iter().map(|c| Self::idx_of(&names, &c.name)).collect::<Vec<usize>>()).map_err(|e| format!("{e:?}")));
         self.judge(key, ["raw-to_proto", "raw-to_proto+abstract-only-sinks", "raw-to_proto+both-views"][variant as usize], g, listing, res, cx);
         // break the reference cycles so that the memory is freed
@@ -974,7 +1023,7 @@ impl Driver for C17 {
         let m = tier.pick(3, 4);
         Describe {
             rule: format!(
-                "generic utils::DepOrder: every labelled digraph on 1..=4 nodes including self-loops (2^(n*n)) x every ordered non-empty sub-list of the nodes as the item slice (so reachable != all); every loop-free digraph on 5 nodes (2^20) x {} listing orders. Embedded orderers through public entry points, every digraph on 1..={m} nodes with self-loops{} x every listing permutation, edges realised as instances / SREF+AREF / relative placements, raw and tetris graphs additionally with every sink cell abstract-only (no layout view) and with every cell holding both an abstract and a layout view: raw DepOrder::order and Library::to_proto (cell list order), Library::from_gds (imported cell order), tetris Library::dep_order (and once more on the same library object after one more instance was added; and on the not yet placed library whose instances are placed relative to one another), tetris ProtoExporter::export, Placer::place (cell graph), and Placer::place over every functional relation graph on 1..={m} instances ((n+1)^n: chains, stars, trees, self-loops, cycles) x every listing permutation, each also with the last listed instance present but not listed in the layout (reachable only through a relation), and with the relatively placed instances handed over in Layout::places instead of Layout::instances. A state is (orderer, graph, listing); non-trivial = graph has at least one edge. Oracle: reachable set by DFS, cycle by Kahn elimination; Ok order must be exactly the reachable set, duplicate-free, every node after all its dependencies; reachable cycle => Err.",
+                "generic utils::DepOrder: every labelled digraph on 1..=4 nodes including self-loops (2^(n*n)) x every ordered non-empty sub-list of the nodes as the item slice (so reachable != all) and every listing that names a node more than once (up to n + 1 entries for n <= 3, up to 3 entries for n = 4); every loop-free digraph on 5 nodes (2^20) x {} listing orders. Embedded orderers through public entry points, every digraph on 1..={m} nodes with self-loops{} x every listing permutation, edges realised as instances / SREF+AREF / relative placements, raw and tetris graphs additionally with every sink cell abstract-only (no layout view) with every cell holding both an abstract and a layout view, and (raw DepOrder) with all cells going by one and the same name: raw DepOrder::order and Library::to_proto (cell list order), Library::from_gds (imported cell order), tetris Library::dep_order (and once more on the same library object after one more instance was added; and on the not yet placed library whose instances are placed relative to one another), tetris ProtoExporter::export, Placer::place (cell graph), and Placer::place over every functional relation graph on 1..={m} instances ((n+1)^n: chains, stars, trees, self-loops, cycles) x every listing permutation, each also with the last listed instance present but not listed in the layout (reachable only through a relation), and with the relatively placed instances handed over in Layout::places instead of Layout::instances. A state is (orderer, graph, listing); non-trivial = graph has at least one edge. Oracle: reachable set by DFS, cycle by Kahn elimination; Ok order must be exactly the reachable set, duplicate-free, every node after all its dependencies; reachable cycle => Err.",
                 if tier.is_thorough() { "all 120" } else { "8 (identity, reverse, 4 rotations, one shuffle)" },
                 if tier.is_thorough() { " and every digraph on 5 nodes without self-loops (2^20)" } else { "" }
             ),
@@ -1139,7 +1188,13 @@ impl Driver for C17 {
         let loops = p[2] == "1";
         let (lo, hi): (u64, u64) = (p[3].parse().unwrap(), p[4].parse().unwrap());
         let orders: Vec<Vec<usize>> = match part.as_str() {
-            "g" if n <= 4 => arrangements(n),
+            "g" if n <= 4 => {
+                // every ordered sub-list, and every listing that names a node more than once (n <= 3: up to n + 1
+                // entries; n = 4: up to 3 entries)
+                let mut v = arrangements(n);
+                v.extend(listings_with_repeats(n, if n <= 3 { n + 1 } else { 3 }));
+                v
+            }
             "g" => Self::listings5(cx.tier),
             _ => perms(n),
         };
